@@ -215,11 +215,15 @@ theorem straddle_hit {p q pp n : V} {r : Res3 ℝ} (h : segToPlaneK p q pp n 1e-
   · exfalso; linarith
 
 /-- everything `_plane_to_convex_hull_points` promises, outside the band:
-`p1` on the plane, `p2` in the hull, consistent distance, global optimality -/
-theorem planeToHull_spec {pp n : V} {pts : List V} {r : Res3 ℝ} (h : planeToHull pp n pts = .ok r)
-    (hne : pts ≠ []) (hu : UnitVec n) (hband : HullNoBand pp n pts) :
+`p1` on the plane, `p2` in the hull, consistent distance, and global optimality against **any** set `K`
+whose heights over the plane are bounded by the extreme vertex heights (the hull itself, or a convex body
+of which the listed points are support points in the directions `±n`) -/
+theorem planeToHull_spec_gen {pp n : V} {pts : List V} {r : Res3 ℝ} (h : planeToHull pp n pts = .ok r)
+    (hne : pts ≠ []) (hu : UnitVec n) (hband : HullNoBand pp n pts) (K : V → Prop)
+    (hK : ∀ y, K y → ∀ lo hi : ℝ, (∀ p ∈ pts, lo ≤ V3.dot (p - pp) n) → (∀ p ∈ pts, V3.dot (p - pp) n ≤ hi) →
+      lo ≤ V3.dot (y - pp) n ∧ V3.dot (y - pp) n ≤ hi) :
     planeSet pp n r.p1 ∧ Hull pts r.p2 ∧ (r.d * r.d = V3.normSq (r.p1 - r.p2) ∧ 0 ≤ r.d) ∧
-      LowerBound (planeSet pp n) (Hull pts) r.d := by
+      LowerBound (planeSet pp n) K r.d := by
   obtain ⟨pmin, pmax, hmin, hmax, hlo, hhi, hc⟩ := planeToHull_char pp n pts hne
   rcases hc with ⟨hs, he⟩ | ⟨hs, cp, hcp, hcl, he⟩
   · -- straddling: the hit point
@@ -270,7 +274,7 @@ theorem planeToHull_spec {pp n : V} {pts : List V} {r : Res3 ℝ} (h : planeToHu
             = -(V3.dot (cp - pp) n * (V3.dot (y - pp) n - V3.dot (cp - pp) n)) := by vsimp; ring
         rw [e]
         -- all heights have one sign; cp has the smallest absolute height
-        obtain ⟨hylo, hyhi⟩ := hull_height_bounds hlo hhi y hy
+        obtain ⟨hylo, hyhi⟩ := hK y hy _ _ hlo hhi
         have hmn := hcl pmin hmin
         have hmx := hcl pmax hmax
         have hcplo := hlo cp hcp
@@ -293,6 +297,53 @@ theorem planeToHull_spec {pp n : V} {pts : List V} {r : Res3 ℝ} (h : planeToHu
           have : V3.dot (y - pp) n ≤ V3.dot (cp - pp) n := by linarith
           nlinarith
 
+theorem planeToHull_spec {pp n : V} {pts : List V} {r : Res3 ℝ} (h : planeToHull pp n pts = .ok r)
+    (hne : pts ≠ []) (hu : UnitVec n) (hband : HullNoBand pp n pts) :
+    planeSet pp n r.p1 ∧ Hull pts r.p2 ∧ (r.d * r.d = V3.normSq (r.p1 - r.p2) ∧ 0 ≤ r.d) ∧
+      LowerBound (planeSet pp n) (Hull pts) r.d :=
+  planeToHull_spec_gen h hne hu hband (Hull pts) (fun y hy _ _ hlo hhi => hull_height_bounds hlo hhi y hy)
+
+/-- closed under segments -/
+def ConvexSet (K : V → Prop) : Prop :=
+  ∀ x y (t : ℝ), K x → K y → 0 ≤ t → t ≤ 1 → K (x + t * (y - x))
+
+theorem hull_subset_convex {K : V → Prop} (hc : ConvexSet K) {pts : List V} (hp : ∀ p ∈ pts, K p) :
+    ∀ x, Hull pts x → K x := by
+  intro x hx
+  induction hx with
+  | vertex p h => exact hp p h
+  | seg x y t _ _ h0 h1 ihx ihy => exact hc x y t ihx ihy h0 h1
+
+/-- **`plane_to_ellipsoid`, `plane_to_cylinder`** (their tail after the two support calls): the function is
+`_plane_to_convex_hull_points` on the two support points `p₋`, `p₊` of the convex body `K` in the directions
+`−n`, `+n`.  Outside the band: point on the plane, point in `K`, consistent distance, global optimality
+against all of `K`. -/
+theorem planeToSupportPair_spec {pp n pm pq : V} {K : V → Prop} {r : Res3 ℝ}
+    (h : planeToHull pp n [pm, pq] = .ok r) (hu : UnitVec n) (hc : ConvexSet K)
+    (hm : IsSupport K (-n) pm) (hq : IsSupport K n pq) (hband : HullNoBand pp n [pm, pq]) :
+    planeSet pp n r.p1 ∧ K r.p2 ∧ (r.d * r.d = V3.normSq (r.p1 - r.p2) ∧ 0 ≤ r.d) ∧
+      LowerBound (planeSet pp n) K r.d := by
+  obtain ⟨h1, h2, h3, h4⟩ := planeToHull_spec_gen h (by simp) hu hband K (by
+    intro y hy lo hi hlo hhi
+    have a := hlo pm (by simp)
+    have b := hhi pq (by simp)
+    have sm := hm.2 y hy
+    have sq := hq.2 y hy
+    have e1 : V3.dot (y - pp) n = V3.dot n y - V3.dot n pp := by vsimp; ring
+    have e2 : V3.dot (pm - pp) n = -(V3.dot (-n) pm) - V3.dot n pp := by vsimp; ring
+    have e3 : V3.dot (pq - pp) n = V3.dot n pq - V3.dot n pp := by vsimp; ring
+    have e4 : V3.dot (-n) y = -(V3.dot n y) := by vsimp; ring
+    rw [e4] at sm
+    rw [e1]
+    constructor <;> linarith)
+  refine ⟨h1, ?_, h3, h4⟩
+  apply hull_subset_convex hc _ _ h2
+  intro p hp
+  simp only [List.mem_cons, List.mem_nil_iff, or_false] at hp
+  rcases hp with rfl | rfl
+  · exact hm.1
+  · exact hq.1
+
 /-! ### the as-is defect inside the band -/
 
 /-- `(dir·n)² · |q − p|² = ((q − p)·n)²` for the normalised direction of `convert_segment_to_line` -/
@@ -306,7 +357,7 @@ theorem segmentToLine_sin (p q n : V) :
     rw [hdir]; vsimp; ring
   rw [this, ← hsq]; ring
 
-/-- **As-is defect (finding F-c10-hull-band).**  If the vertices lie on both sides of the plane but every
+/-- **As-is defect (finding F-c10-plane-hull-swapped).**  If the vertices lie on both sides of the plane but every
 straddling vertex pair is inside the band (`sin² < 1e-6` between its segment and the plane), then
 `_plane_to_convex_hull_points` forwards the *parallel* answer of `_line_segment_to_plane` unchanged:
 the first returned point (documented as the closest point **on the plane**) is a vertex strictly
